@@ -127,4 +127,56 @@ theorem mpf_set_si_dest_safe (s : St) (w : Int) (hw : w.natAbs < B) (hs : s.ok =
 
 example : (mpf_set_si (mkSt r2 default default) (-7)).out = (-1, 1, [7, junk, junk]) := by decide
 
+/-- mpf_set_z (r, u) (mpf/set_z.c), the mpz operand given by its SIZ and its block (any ALLOC ≥ |SIZ|), of any length:
+    at most PREC (r) + 1 limbs are stored, the block of u is only read inside its |SIZ| limbs; the result is C13's `Mpf.set_z`
+    of the integer the operand holds. -/
+theorem mpf_set_z_dest_safe (s : St) (zsize : Int) (zb : Blk) (z : Int) (hs : s.ok = true) (hr : DestWF s.r)
+    (hzb : BlkWF zb) (hz : zsize.natAbs ≤ zb.alloc) (hl : zb.limbs.take zsize.natAbs = natLimbs z.natAbs)
+    (hsg : zsize ≥ 0 ↔ z ≥ 0) :
+    (mpf_set_z 0 s zsize zb).ok = true ∧ (mpf_set_z 0 s zsize zb).u = s.u ∧ (mpf_set_z 0 s zsize zb).v = s.v ∧
+    (mpf_set_z 0 s zsize zb).r.prec = s.r.prec ∧ (mpf_set_z 0 s zsize zb).r.blk.alloc = s.r.blk.alloc ∧
+    BlkWF (mpf_set_z 0 s zsize zb).r.blk ∧
+    (mpf_set_z 0 s zsize zb).r.view = Mpf.set_z s.r.prec z ∧
+    (1 ≤ s.r.prec → Mpf.WF (mpf_set_z 0 s zsize zb).r.view) := by
+  obtain ⟨hrb, hra⟩ := hr
+  have hzl : zsize.natAbs ≤ zb.limbs.length := by rw [hzb]; exact hz
+  have hlen0 : (natLimbs z.natAbs).length = zsize.natAbs := by rw [← hl, List.length_take]; omega
+  generalize hasz : zsize.natAbs = asize at hzl hz hl hlen0
+  generalize hp1 : s.r.prec + 1 = p1 at hra
+  have hsel := sel_top zb.limbs asize p1 hzl
+  generalize hoff : (if asize > p1 then asize - p1 else 0) = off at hsel
+  generalize hn : (if asize > p1 then p1 else asize) = n at hsel
+  have hb1 : off + n ≤ zb.alloc := by subst hoff hn; split <;> omega
+  have hb2 : n ≤ s.r.blk.alloc := by subst hn; split <;> omega
+  generalize hsz : (if zsize ≥ 0 then (n : Int) else -(n : Int)) = sz
+  have hszn : sz.natAbs = n := by subst hsz; split <;> omega
+  have hR := Blk.read_ok zb off n hzb hb1
+  have e : mpf_set_z 0 s zsize zb = ((s.setSE sz (asize : Int)).wrR 0 (zb.read off n).1) := by
+    simp only [mpf_set_z, Nat.add_zero, hasz, hp1, hoff, hn, hsz, hR.1, Bool.and_true]
+  obtain ⟨c1, c2, c3, _, c4, c5, c6, c7, c8, c9⟩ := wrR_spec (s.setSE sz (asize : Int)) 0 (zb.read off n).1 hs hrb
+    (by rw [hR.2]; show 0 + n ≤ s.r.blk.alloc; omega)
+  have hrd : (zb.read off n).1 = Mpf.top p1 (natLimbs z.natAbs) := by rw [← hl, ← hsel]; rfl
+  have hview : ((s.setSE sz (asize : Int)).wrR 0 (zb.read off n).1).r.view = Mpf.set_z s.r.prec z := by
+    have g1 : (s.setSE sz (asize : Int)).r.size = sz := rfl
+    have g2 : (s.setSE sz (asize : Int)).r.exp = asize := rfl
+    have g3 : (s.setSE sz (asize : Int)).r.prec = s.r.prec := rfl
+    have ht : List.take n (((s.setSE sz (asize : Int)).wrR 0 (zb.read off n).1).r.blk.limbs) = (zb.read off n).1 := by
+      rw [c9]; have := take_write0 (s.setSE sz (asize : Int)).r.blk.limbs (zb.read off n).1
+      rw [hR.2] at this; rw [hR.2]; exact this
+    have hlen : (Mpf.top p1 (natLimbs z.natAbs)).length = n := by rw [← hrd]; exact hR.2
+    simp only [FObj.view, Mpf.set_z, c4, c5, c6, g1, g2, g3, hszn, ht, hp1, hlen0]
+    rw [hlen, ← hrd, ← hsz]
+    by_cases hp : zsize ≥ 0
+    · rw [if_pos hp, if_pos (hsg.mp hp)]
+    · rw [if_neg hp, if_neg (fun h => hp (hsg.mpr h))]
+  rw [e]
+  refine ⟨c1, c2, c3, c4, c7, c8, hview, fun hp => ?_⟩
+  rw [hview]
+  exact (Mpf.set_z_spec s.r.prec z hp).1
+
+-- z = -(5 B^4 + … + 1) in a block of 6 limbs, destination of three limbs
+example : (mpf_set_z 0 (mkSt r2 default default) (-5) (Blk.ofLimbs [1, 2, 3, 4, 5] 6)).out = (-3, 5, [3, 4, 5]) := by decide
+-- negative: `prec = PREC (r) + 2`
+example : (mpf_set_z 1 (mkSt r2 default default) (-5) (Blk.ofLimbs [1, 2, 3, 4, 5] 6)).ok = false := by decide
+
 end Mpir.AllocSafe7
